@@ -479,6 +479,93 @@ theorem debounce_eventually (o : DOpts) (es : List Ev) (s : DB) (h : runD o {} e
         obtain ⟨es', s', hrun, hv⟩ := afterTok s1 hi1 hp1 htok1
         exact ⟨.pushReturn :: es', s', by simp [runD, stepD, hr, htok, hstep, hrun], hv⟩
 
+/-! ## `debounceMax`: updates that keep coming cannot postpone a push for ever -/
+
+def isRecvOrTick : Ev → Bool
+  | .recv _ | .tick _ => true
+  | _ => false
+
+/-- While a batch is pending, further updates and the passing of time leave the armed timer, the
+    start of the batch and the `free` flag alone (a `recv` re-arms only for the first event of a batch). -/
+theorem recv_tick_keeps (o : DOpts) (s s' : DB) (e : Ev) (h : stepD o s e = some s') (he : isRecvOrTick e = true)
+    (hr : s.req.isSome = true) (hdn : s.debounced ≠ 0) :
+    s'.free = s.free ∧ s'.timerAt = s.timerAt ∧ s'.start = s.start ∧ s'.req.isSome = true ∧ s.now ≤ s'.now ∧
+      s'.debounced ≠ 0 ∧ s'.pushed = s.pushed := by
+  cases e with
+  | tick d =>
+    simp only [stepD, Option.some.injEq] at h; subst h
+    exact ⟨rfl, rfl, rfl, hr, Nat.le_add_right _ _, hdn, rfl⟩
+  | recv r =>
+    simp only [stepD, Option.some.injEq] at h; subst h
+    unfold onRecv; simp only []
+    split
+    · exact ⟨rfl, rfl, rfl, hr, Nat.le_refl _, hdn, rfl⟩
+    · refine ⟨rfl, by simp [hdn], by simp [hdn], liftO_some_isSome _ _, Nat.le_refl _, ?_, rfl⟩
+      exact Nat.succ_ne_zero _
+  | timer => simp [isRecvOrTick] at he
+  | pushReturn => simp [isRecvOrTick] at he
+  | freeRecv => simp [isRecvOrTick] at he
+  | edsReturn => simp [isRecvOrTick] at he
+
+/-- **debounce_max_delay**: let a batch be pending with the loop free and `debounceMax` already over
+    since its first event.  Then whatever updates arrive and however time passes in the meantime
+    (`es`: any `recv`s and `tick`s - in particular updates closer together than the quiet period, for
+    ever), the timer that is armed stays armed, and **its firing pushes** everything received up to
+    then - the quiet period is not waited for.  Together with `debounce_timer_deadline` (an armed
+    timer is due at most `DebounceAfter` after the last event) this bounds the wait of an accepted
+    update by `debounceMax + DebounceAfter` plus the running push, under "a due timer fires". -/
+theorem debounce_max_delay (o : DOpts) (es0 : List Ev) (s : DB) (hreach : runD o {} es0 = some s)
+    (hf : s.free = true) (hr : s.req.isSome = true) (hm : o.max ≤ s.now - s.start)
+    (es : List Ev) (hes : es.all isRecvOrTick = true) (s1 : DB) (h1 : runD o s es = some s1) :
+    ∃ t v, s1.timerAt = some t ∧ s1.req = some v ∧
+      (t ≤ s1.now → ∃ s2, stepD o s1 .timer = some s2 ∧ s2.req = none ∧ s2.pushed = s1.pushed ++ [v]) := by
+  have hi := invD_run o {} s es0 (invD_init o) hreach
+  have hdn : s.debounced ≠ 0 := by
+    intro hz
+    have hb : s.batch = [] := by have := hi.count; rw [hz] at this; exact List.length_eq_zero_iff.mp this.symm
+    have := hi.nonempty; rw [hb] at this; rw [this] at hr; simp at hr
+  have htm : s.timerAt.isSome = true := by
+    rcases hi.wake hr with h | h
+    · exact h
+    · rw [hf] at h; cases h
+  -- the facts that survive recvs and ticks
+  suffices H : ∀ (es : List Ev) (s s1 : DB), es.all isRecvOrTick = true → runD o s es = some s1 →
+      s.free = true → s.req.isSome = true → s.debounced ≠ 0 → s.timerAt.isSome = true → o.max ≤ s.now - s.start →
+      s1.free = true ∧ s1.req.isSome = true ∧ s1.timerAt.isSome = true ∧ o.max ≤ s1.now - s1.start by
+    obtain ⟨g1, g2, g3, g4⟩ := H es s s1 hes h1 hf hr hdn htm hm
+    cases ht : s1.timerAt with
+    | none => rw [ht] at g3; cases g3
+    | some t =>
+      cases hv : s1.req with
+      | none => rw [hv] at g2; cases g2
+      | some v =>
+        refine ⟨t, v, rfl, rfl, fun hdue => ?_⟩
+        have e : stepD o s1 .timer = some (pushWorker o { s1 with timerAt := none }) := by
+          simp only [stepD, ht, hdue, if_true]; rw [if_pos g1]
+        refine ⟨_, e, ?_, ?_⟩ <;> simp [pushWorker, g4, hv]
+  intro es
+  induction es with
+  | nil => intro s s1 _ h1 a b _ d e; simp only [runD, Option.some.injEq] at h1; subst h1; exact ⟨a, b, d, e⟩
+  | cons e es ih =>
+    intro s s1 hall h1 a b c d m
+    simp only [List.all_cons, Bool.and_eq_true] at hall
+    simp only [runD] at h1
+    cases hs : stepD o s e with
+    | none => simp [hs] at h1
+    | some s' =>
+      simp only [hs, Option.bind_some] at h1
+      obtain ⟨k1, k2, k3, k4, k5, k6, _⟩ := recv_tick_keeps o s s' e hs hall.1 b c
+      refine ih s' s1 hall.2 h1 (by rw [k1]; exact a) k4 k6 (by rw [k2]; exact d) ?_
+      rw [k3]; omega
+
+/-- ... and when the push that was running returns with `debounceMax` over, the loop pushes at once. -/
+theorem freeRecv_pushes_at_max (o : DOpts) (s : DB) (v : View) (htok : s.freeTok = true) (hr : s.req = some v)
+    (hm : o.max ≤ s.now - s.start) :
+    ∃ s', stepD o s .freeRecv = some s' ∧ s'.req = none ∧ s'.pushed = s.pushed ++ [v] := by
+  have e : stepD o s .freeRecv = some (pushWorker o { s with freeTok := false, free := true }) := by
+    simp [stepD, htok]
+  refine ⟨_, e, ?_, ?_⟩ <;> simp [pushWorker, hm, hr]
+
 /-! ## Non-vacuity: an event arrives while a push is running and is pushed afterwards -/
 
 def exA : View := { configs := some ["VirtualService/ns1/a"] }
@@ -492,5 +579,13 @@ def exRun : List Ev :=
 
 example : ((runD exOpts {} exRun).map (fun s => (s.pushed.map (·.configs), s.req.isSome, s.running.length))) =
     some ([some ["VirtualService/ns1/a"], some ["DestinationRule/ns1/b"]], false, 1) := by decide
+
+/-- Non-vacuity: updates every 9 time units (quiet period 10) - the quiet period never elapses, the
+    push comes through `debounceMax` = 30. -/
+example : ((runD { after := 10, max := 30, eds := true } {}
+    [.recv exA, .tick 9, .recv exB, .tick 1, .timer, .tick 8, .recv exA, .tick 2, .timer, .tick 7, .recv exB, .tick 3, .timer,
+     ]).map
+    (fun s => (s.pushed.length, s.req.isSome, s.now - s.last, s.now - s.start))) = some (1, false, 3, 30) := by decide +kernel
+
 
 end IstioModel.C02
